@@ -68,7 +68,7 @@ import (
 	_ "github.com/segmentio/kafka-go/protocol/offsetdelete"
 	_ "github.com/segmentio/kafka-go/protocol/offsetfetch"
 	_ "github.com/segmentio/kafka-go/protocol/produce"
-	_ "github.com/segmentio/kafka-go/protocol/saslauthenticate"
+	"github.com/segmentio/kafka-go/protocol/saslauthenticate"
 	_ "github.com/segmentio/kafka-go/protocol/saslhandshake"
 	_ "github.com/segmentio/kafka-go/protocol/syncgroup"
 	_ "github.com/segmentio/kafka-go/protocol/txnoffsetcommit"
@@ -376,6 +376,49 @@ func rawSasl(out *bufio.Writer, r *rand.Rand, thorough bool) (n int) {
 	return
 }
 
+// rawSaslTransport: the same un-framed token exchange on the Transport path (protocol/saslauthenticate RawExchange, used
+// by protocol.Conn.RoundTrip after a v0 handshake): the answer [int32 len][bytes] cut after k bytes.
+//
+//	c17rawt <answer hex> <k>\t<ok n|err|panic>
+func rawSaslTransport(out *bufio.Writer, r *rand.Rand) (n int) {
+	for _, tokLen := range []int{0, 1, 9, 40, 300} {
+		tok := gen.Bytes(r, tokLen)
+		w := &connfake.W{}
+		w.I32(int32(tokLen))
+		w.Raw(tok)
+		ks := cuts(r, len(w.B), true, 0)
+		for _, k := range ks {
+			if k > len(w.B) {
+				continue
+			}
+			res := "err"
+			func() {
+				defer func() {
+					if p := recover(); p != nil {
+						res = "panic"
+					}
+				}()
+				rw := struct {
+					io.Reader
+					io.Writer
+				}{bytes.NewReader(w.B[:k]), io.Discard}
+				msg, err := (&saslauthenticate.Request{AuthBytes: []byte("client-token")}).RawExchange(rw)
+				if err == nil {
+					resp, _ := msg.(*saslauthenticate.Response)
+					if resp == nil || !bytes.Equal(resp.AuthBytes, tok) {
+						res = "fake"
+					} else {
+						res = fmt.Sprintf("ok %d", len(resp.AuthBytes))
+					}
+				}
+			}()
+			fmt.Fprintf(out, "c17rawt %s %d\t%s\n", gen.Hex(w.B), k, res)
+			n++
+		}
+	}
+	return
+}
+
 // ---------------------------------------------------------------------------------------------- two callers, one Conn
 
 // twoCallers: A's and B's requests are both written before the broker answers; the two response frames are then
@@ -387,7 +430,8 @@ func twoCallers(out *bufio.Writer, r *rand.Rand, thorough bool) (n, bad int) {
 		return
 	}
 	pairs := [][2]string{{"listOffsets", "listOffsets"}, {"heartbeat", "offsetCommit"}, {"offsetFetch", "heartbeat"},
-		{"findCoordinator", "listGroups"}, {"listOffsets", "syncGroup"}, {"leaveGroup", "listOffsets"}}
+		{"findCoordinator", "listGroups"}, {"listOffsets", "syncGroup"}, {"leaveGroup", "listOffsets"},
+		{"fetch", "heartbeat"}, {"heartbeat", "fetch"}} // a Batch holds the read lock until it is closed
 	for _, pr := range pairs {
 		for _, errs := range [][]int16{nil, {6}} {
 			opA, opB := connfake.OpByName(pr[0]), connfake.OpByName(pr[1])
@@ -402,6 +446,14 @@ func twoCallers(out *bufio.Writer, r *rand.Rand, thorough bool) (n, bad int) {
 				}
 				c, br := connfake.Start(topic, connfake.VersionTable(nil))
 				c.SetDeadline(time.Now().Add(2 * time.Second))
+				if opA.Name == "fetch" || opB.Name == "fetch" {
+					// fetch negotiates its version on first use: get that exchange out of the way (it would be held too)
+					f := connfake.OpByName("fetch")
+					wf := &connfake.W{}
+					f.Build(f.Versions[0], wf, r, &connfake.Shape{Topic: topic})
+					br.Push(f.Key, connfake.Resp{Body: wf.B, Cut: -1})
+					f.Call(c, &connfake.Shape{Topic: topic})
+				}
 				br.Push(opA.Key, connfake.Resp{Body: wa.B, Cut: -1})
 				br.Push(opB.Key, connfake.Resp{Body: wb.B, Cut: -1})
 				cut := k
@@ -422,8 +474,9 @@ func twoCallers(out *bufio.Writer, r *rand.Rand, thorough bool) (n, bad int) {
 					}()
 					return ch
 				}
+				n0 := len(br.Log())
 				chA := call(opA)
-				for i := 0; i < 2000 && len(br.Log()) < 1; i++ {
+				for i := 0; i < 2000 && len(br.Log()) < n0+1; i++ {
 					time.Sleep(100 * time.Microsecond)
 				}
 				chB := call(opB)
@@ -447,6 +500,79 @@ func twoCallers(out *bufio.Writer, r *rand.Rand, thorough bool) (n, bad int) {
 					}
 				}
 			}
+		}
+	}
+	return
+}
+
+// twoCallersStray: two requests in flight, the broker answers with ONE response that belongs to neither (foreign
+// correlation id) and nothing else.  No waiter may take it, and none may wait for ever: both come back with an error
+// when their deadline (300 ms) expires — Peek is served from the buffer, so the socket's deadline alone ends nothing.
+//
+//	c2x <topic hex> <A>:<ver>:0:0 <bodyA hex> <B>:<ver>:0:0 <bodyB hex> <id delta>\t<resA> <resB>
+func twoCallersStray(out *bufio.Writer, r *rand.Rand, thorough bool) (n int) {
+	pairs := [][2]string{{"listOffsets", "heartbeat"}, {"heartbeat", "offsetCommit"}, {"findCoordinator", "listGroups"}, {"leaveGroup", "listOffsets"}}
+	if !thorough {
+		pairs = pairs[:2]
+	}
+	for _, pr := range pairs {
+		if badTotal >= badBudget {
+			return
+		}
+		opA, opB := connfake.OpByName(pr[0]), connfake.OpByName(pr[1])
+		wa, wb := &connfake.W{}, &connfake.W{}
+		opA.Build(opA.Versions[0], wa, r, &connfake.Shape{Topic: topic})
+		opB.Build(opB.Versions[0], wb, r, &connfake.Shape{Topic: topic})
+		delta := int32(5 + r.Intn(50))
+		c, br := connfake.Start(topic, connfake.VersionTable(nil))
+		c.SetDeadline(time.Now().Add(300 * time.Millisecond))
+		br.Push(opA.Key, connfake.Resp{Body: wa.B, Cut: -1, IDDelta: delta})
+		br.Push(opB.Key, connfake.Resp{Body: wb.B, Cut: -1, Stall: true})
+		// both requests are read first; then the stray frame alone goes out, followed by silence
+		br.Hold(2, 8+len(wa.B))
+		call := func(op *connfake.Op) chan string {
+			ch := make(chan string, 1)
+			go func() {
+				defer func() {
+					if p := recover(); p != nil {
+						ch <- "panic"
+					}
+				}()
+				_, err := op.Call(c, &connfake.Shape{Topic: topic})
+				ch <- connfake.Outcome(err)
+			}()
+			return ch
+		}
+		t0 := time.Now()
+		chA := call(opA)
+		for i := 0; i < 2000 && len(br.Log()) < 1; i++ {
+			time.Sleep(100 * time.Microsecond)
+		}
+		chB := call(opB)
+		wait := func(ch chan string) string {
+			select {
+			case x := <-ch:
+				if time.Since(t0) > 2*time.Second {
+					return "late"
+				}
+				return x
+			case <-time.After(3 * time.Second):
+				return "hang"
+			}
+		}
+		resA, resB := wait(chA), wait(chB)
+		go func() { c.Close(); br.Stop() }()
+		if resA == "fail:noprogress" {
+			resA = "fail"
+		}
+		if resB == "fail:noprogress" {
+			resB = "fail"
+		}
+		fmt.Fprintf(out, "c2x %s %s:%d:0:0 %s %s:%d:0:0 %s %d\t%s %s\n", gen.Hex([]byte(topic)), opA.Name, opA.Versions[0], gen.Hex(wa.B),
+			opB.Name, opB.Versions[0], gen.Hex(wb.B), delta, resA, resB)
+		n++
+		if resA == "hang" || resB == "hang" {
+			badTotal++
 		}
 	}
 	return
@@ -608,10 +734,13 @@ func main() {
 	t0 := time.Now()
 	lap := func() string { d := time.Since(t0).Round(time.Millisecond); t0 = time.Now(); return d.String() }
 	nraw := rawSasl(out, r, thorough)
+	nraw += rawSaslTransport(out, r)
 	fmt.Fprintf(os.Stderr, "c17 driver: %d stalled-broker cases (%d back long after the deadline)\n", nstall, nlate)
 	fmt.Fprintf(os.Stderr, "c17 driver: %d un-framed sasl token cases\n", nraw)
 	n2, bad2 := twoCallers(out, r, thorough)
 	fmt.Fprintf(os.Stderr, "c17 driver: %d two-caller cases (%d with a hung caller) in %s\n", n2, bad2, lap())
+	n2x := twoCallersStray(out, r, thorough)
+	fmt.Fprintf(os.Stderr, "c17 driver: %d two-caller cases with a response that belongs to neither in %s\n", n2x, lap())
 	nlo := multiPart(out, r, thorough)
 	fmt.Fprintf(os.Stderr, "c17 driver: %d split list-offsets cases (one sub-response cut) in %s\n", nlo, lap())
 	nmb := multiBroker(out, r, thorough)
